@@ -19,6 +19,8 @@ mod syntax_error;
 mod tokenizer;
 mod value;
 mod variables;
+#[cfg(abasic_verif)]
+mod verif_probe;
 
 pub use analyzer::{DiagnosticMessage, SourceFileAnalyzer, SourceFileMap, TokenType};
 pub use interpreter::{Interpreter, InterpreterState};
@@ -26,3 +28,7 @@ pub use interpreter_error::{InterpreterError, OutOfMemoryError, TracedInterprete
 pub use interpreter_output::InterpreterOutput;
 pub use syntax_error::SyntaxError;
 pub use tokenizer::Token;
+#[cfg(abasic_verif)]
+pub use verif_probe::{
+    VerifArray, VerifFrame, VerifFunction, VerifLoop, VerifProbe, VerifValue,
+};
